@@ -24,6 +24,7 @@ import IocProofs.Lemmas.M2SucceedsConv
 import Ioc.Match
 import IocProofs.Lemmas.SemApp
 import IocProofs.Lemmas.SemMisc
+import IocProofs.Lemmas.SemUnmarshall
 namespace Ioc.C09
 open Ioc Ioc.M2 Ioc.App
 
@@ -305,5 +306,11 @@ theorem C09_code_stage_wrappers (fails : Bool) :
     Go.run (Sem.stagePrims "self.Factory.Refresh" fails) Progs.app_refresh [] [] =
       some (if fails then Sem.errN else .nil, ["self.Factory.Refresh"]) :=
   Sem.stageWrappers_sem fails
+
+/-- Property.IsRequired, regenerated: a point is required unless its `required` argument holds the value "false" — nothing
+    else (no other argument, no tag, no field type) makes a point optional -/
+theorem C09_code_IsRequired (has : Sem.AM → String → List String → Bool) (fmtKey : String → String) (w : Sem.PW) :
+    Go.run (Sem.pmPrims has fmtKey) Progs.prop_IsRequired [] w = some (.bool (!(has w.args "required" ["false"])), w) :=
+  Sem.isRequired_sem has fmtKey w
 
 end Ioc.C09
